@@ -24,7 +24,7 @@ EXPLANATION = (
     "fmt_chksum ladder `>99→0, >9→1, else 2` into a '000' buffer; R02.4 BaseField::encode: itoa(tag) ≺ '=' ≺ print ≺ SOH; R02.5 "
     "MessageBase::encode iterates _pos (multimap<position, field>) and all five add_field bodies insert {pos, field}; groups: count field "
     "then encode_group over _msgs in order; R02.6 the routine that computes the CheckSum (Message::calc_chksum) satisfies the range, stride and "
-    "carry-bookkeeping rules of C07; R02.7 Message::encode(f8String&) assigns (pointer, length returned by encode(char**)). NOT decided: group count vs. element count, values.")
+    "carry-bookkeeping rules of C07; R02.7 Message::encode(f8String&) assigns (pointer, length returned by encode(char**)); R02.8 copy_legal/move_legal never hand the target a position taken from the source's trait; R02.9 the scratch array of the string overload has automatic storage. NOT decided: group count vs. element count, values.")
 
 M = 'FIX8::Message::'
 MB = 'FIX8::MessageBase::'
@@ -65,6 +65,43 @@ def string_overload_rule(ctx, prog, RID):
               'the output string receives (pointer, length returned by encode(char**))',
               'the output string is filled by `%s` without the length the encoder returned: the text is cut at the first NUL byte (a data or pass-through value '
               'containing one is truncated together with everything after it)' % asg[0].text())
+
+
+def copy_position_rule(ctx, prog, RID):
+    """a field copied or moved into another message is positioned by the TARGET's traits: copy_legal / move_legal never pass a position read from the
+    source's trait table"""
+    n = 0
+    for fq in (MB + 'copy_legal', MB + 'move_legal'):
+        g = prog.fn1(fq)
+        ctx.saw(g)
+        for c in g.calls_to(MB + 'add_field'):
+            n += 1
+            if len([a for a in c.args if a.k != 'CXXDefaultArgExpr']) < 3:
+                ctx.ok(RID, '%s#add_field@%s' % (fq, c.loc.split(':')[-1]), c.loc, 'the field is added through add_field(field): position looked up in the target')
+                continue
+            posarg = c.args[2]
+            src_pos = [x for x in posarg.walk() if x.k == 'MemberExpr' and x.decl and x.decl.get('n') == '_pos' and
+                       not any(y.k == 'DeclRefExpr' and y.declid == g.param_ids[0] for y in x.walk())]
+            ctx.check(not src_pos, RID, '%s#add_field@%s' % (fq, c.loc.split(':')[-1]), c.loc,
+                      'the position handed to the target does not come from the source message\'s trait',
+                      'the copied field is entered into the target\'s position index under `%s`, the position it has in the SOURCE message type: after copy_legal between '
+                      'different message types the target encodes its fields out of schema order' % posarg.text())
+    ctx.need(n >= 1, 'no add_field call in copy_legal/move_legal')
+
+
+def scratch_buffer_rule(ctx, prog, RID):
+    """the scratch array Message::encode(f8String&) encodes into belongs to the call (automatic storage): a static one is shared by every thread that
+    encodes a message"""
+    es = [g for g in prog.fns(M + 'encode') if ('basic_string' in g.sig or 'f8String' in g.sig) and 'char **' not in g.sig and len(g.param_ids) == 1]
+    ctx.need(len(es) == 1, 'Message::encode(f8String&) not found')
+    g = es[0]
+    arrays = [(dd, g.tu.decls[dd]) for st in g.all_nodes() if st.k == 'DeclStmt' for dd, init in st.r.get('decls', []) if g.tu.types[g.tu.decls[dd]['t']]['k'] == 'array']
+    ctx.need(arrays, 'encode(f8String&): scratch array not found')
+    bad = [d for dd, d in arrays if d.get('sc') != 'local']
+    ctx.check(not bad, RID, M + 'encode/string#scratch-buffer-automatic', g.loc,
+              'the scratch buffer is a local (automatic) array',
+              'the scratch buffer `%s` has static storage: two threads encoding two unrelated messages at once write into the same bytes (interleaved output, wrong CheckSum)'
+              % (bad[0]['n'] if bad else ''))
 
 
 def run(ctx):
@@ -224,6 +261,8 @@ def run(ctx):
     ctx.check(len(unk) == 1 and me.cfg.dominates(me.cfg.block_in[me.cfg.V[me.cfg.vertex_of(fr[0].child('range'))].block] if fr else 0, me.cfg.vertex_of(unk[0])), 'R02.5',
               MB + 'encode#unknown-last', me.loc, 'pass-through bytes follow the positioned fields')
     string_overload_rule(ctx, prog, 'R02.7')
+    copy_position_rule(ctx, prog, 'R02.8')
+    scratch_buffer_rule(ctx, prog, 'R02.9')
     # R02.6 the CheckSum field is computed by Message::calc_chksum: range, stride and carry bookkeeping rules of C07 apply
     c07.rules(ctx, prog, rid='R02.6')
     ctx.floor('R02.6', 8)
